@@ -773,3 +773,26 @@ def c01_copy_upgrade_scope(seed=1):
         h.op(f"logout @{k}")
     h.op("fini")
     return h.text()
+
+
+# ---------------------------------------------------------------------------------------------------------
+# C06: byte strings NESTED in CKA_WRAP_TEMPLATE / CKA_UNWRAP_TEMPLATE of private keys
+# ---------------------------------------------------------------------------------------------------------
+def c06_nested_template(seed=1):
+    """AES keys, private and public, token and session, whose CKA_WRAP_TEMPLATE / CKA_UNWRAP_TEMPLATE carry random byte strings (a label, an id); a C_SetAttributeValue that
+    replaces the template; a copy made private; the directory is dumped after every call."""
+    rng = random.Random(seed * 31 + 7)
+    h = OpsGen(rng); h.prologue(1); t = h.toks[0]
+    k = h.open(t, True); h.login(k, t, 'user')
+    rb = lambda n: bytes(rng.randrange(256) for _ in range(n)).hex()
+    for priv in ("01", "00"):
+        for tok in ("01", "00"):
+            o = h.op(f"create @{k} 0={ul(4)} 100={ul(0x1f)} 1={tok} 2={priv} 3={hx(h.new_label())} 11={rb(16)} 106=01 107=01 162=01 103=00 "
+                     f"40000211={{3={rb(24)};162=01}} 40000212={{102={rb(20)}}}"); h.minted += 1
+            h.op("dumpdir")
+            h.op(f"getattr @{k} @{o} 40000211:200 40000212:200")
+            if priv == "00":
+                c = h.op(f"copy @{k} @{o} 2=01 3={hx(h.new_label())}"); h.minted += 1
+                h.op("dumpdir")
+    h.op("fini")
+    return h.text()
